@@ -364,7 +364,7 @@ package workers
 //@ // C02 (supersede): the requests still pending when a new count arrives are reported dropped at that moment, each
 //@ // exactly once, and the new count replaces them
 //@ func (*TriggerPool).sendJobsForExecution
-//@   props C02 C05 C09 C04
+//@   props C02 C05 C09 C04 C03
 //@   requires wfTriggerPool(p)
 //@   assert before call (*jobCounter).set : [new-count-installed-under-the-condition-lock] heldLocker(p.jobsAvailableCond.L)
 //@   assert before call (*Cond).Broadcast : [workers-woken-under-the-condition-lock] heldLocker(p.jobsAvailableCond.L)
